@@ -54,7 +54,9 @@ for chk in [pid] + also:
   print(chk, tier, 'exit', rc, '%.0fs' % (time.time() - t0))
   for l in results[chk]['violations'][:4]: print('   ', l[:220])
 meta['checks'] = results
-meta['caught_by'] = [c for c, r in results.items() if r['exit'] == 1]
+# caught = exit 1 WITH a VIOLATION line (a crash of the check also exits non-zero and is a miss, not a catch)
+meta['caught_by'] = [c for c, r in results.items() if r['exit'] == 1 and any(v.startswith('VIOLATION') for v in r['violations'])]
+meta['crashed'] = [c for c, r in results.items() if r['exit'] != 0 and not any(v.startswith('VIOLATION') for v in r['violations'])]
 meta['evaluations'].append({'at': time.strftime('%Y-%m-%dT%H:%M:%SZ', time.gmtime()), 'caught_by': meta['caught_by'],
                             'exits': {k: v['exit'] for k, v in results.items()}})
 json.dump(meta, open(os.path.join(out, 'meta.json'), 'w'), indent=1)
